@@ -542,14 +542,216 @@ Qed.
 Lemma n_reset_clean_pres n s j : clean (se (getsig s j)) -> clean (se (getsig (n_reset n s) j)).
 Proof. intros H. rewrite n_reset_resets. apply resets_clean_pres; exact H. Qed.
 
-(* the analytical pass ends every iteration with blk.reset() *)
+(* the analytical pass ends every iteration with blk.reset(); Sout.reset() *)
 Lemma analytical_clean c blk inps j : direct_sig blk j -> forall outps iout rand s,
   clean (se (getsig s j)) -> clean (se (getsig (a_store (analytical c blk inps outps iout rand s)) j)).
 Proof.
   intros Hd. induction outps as [|so outps IH]; intros iout rand s Hc; cbn [analytical]; [exact Hc|].
   destruct (get_state so s) as [output|]; [|cbn [a_store]; apply IH; exact Hc].
-  destruct (make_seed c iout output rand) as [df rand']. cbn [a_store]. apply IH. apply n_reset_clean; exact Hd.
+  destruct (make_seed c iout output rand) as [df rand']. cbn [a_store]. apply IH.
+  apply reset_sig_clean_pres. apply n_reset_clean; exact Hd.
 Qed.
+
+(* ------------------------------------------------------------------ position-wise bookkeeping: which entries of the
+   sensitivity of root j can be written by an operation through a reference, and which are zeroed by its reset *)
+Definition zat (o : option val) (p : nat) : Prop :=
+  match o with None => True | Some v => nth p (v_dat v) k0 = k0 end.
+
+Lemma all_zero_nth (l : list K) : Forall (fun a => a = k0) l <-> forall p, nth p l k0 = k0.
+Proof.
+  split.
+  - intros H. induction H as [|x l Hx Hl IH]; intros [|p]; cbn; auto.
+  - induction l as [|x l IH]; intros H; constructor; [exact (H 0%nat)|]. apply IH. intros p. exact (H (S p)).
+Qed.
+Lemma clean_zat o : clean o <-> forall p, zat o p.
+Proof. destruct o as [v|]; cbn; [apply all_zero_nth|]. split; auto. Qed.
+
+(* entry p of the sensitivity of root j is addressed by reference r *)
+Definition cov1b (r : sref) (j p : nat) : bool :=
+  Nat.eqb (s_root r) j && match s_slice r with None => true | Some (ix, _) => existsb (Nat.eqb p) ix end.
+Definition covb (L : list sref) (j p : nat) : bool := existsb (fun r => cov1b r j p) L.
+
+Lemma existsb_eqb_in p ix : existsb (Nat.eqb p) ix = true <-> In p ix.
+Proof.
+  rewrite existsb_exists. split.
+  - intros (x & Hx & He). apply Nat.eqb_eq in He. subst. exact Hx.
+  - intros H. exists p. split; [exact H|apply Nat.eqb_refl].
+Qed.
+Lemma existsb_eqb_notin p ix : existsb (Nat.eqb p) ix = false -> ~ In p ix.
+Proof. intros H Hin. apply existsb_eqb_in in Hin. congruence. Qed.
+
+Lemma covb_app a b j p : covb (a ++ b) j p = covb a j p || covb b j p.
+Proof. apply existsb_app. Qed.
+Lemma covb_false_in L j p : covb L j p = false -> forall r, In r L -> cov1b r j p = false.
+Proof.
+  intros H r Hr. destruct (cov1b r j p) eqn:E; [|reflexivity].
+  assert (Ht : covb L j p = true) by (apply existsb_exists; exists r; auto). congruence.
+Qed.
+Lemma covb_false_of L j p : (forall r, In r L -> cov1b r j p = false) -> covb L j p = false.
+Proof.
+  intros H. destruct (covb L j p) eqn:E; [|reflexivity].
+  apply existsb_exists in E as (r & Hr & Hc). rewrite (H r Hr) in Hc. discriminate.
+Qed.
+
+Lemma nth_scatter_notin ix : forall (d vs : list K) p, ~ In p ix -> nth p (scatter d ix vs) k0 = nth p d k0.
+Proof.
+  induction ix as [|i ix IH]; intros d [|v vs] p H; cbn; auto.
+  rewrite IH by (intro; apply H; right; assumption). apply nth_upd_neq. intro; apply H; left; assumption.
+Qed.
+Lemma nth_upd_zero (d : list K) i p : nth p d k0 = k0 -> nth p (upd d i k0) k0 = k0.
+Proof.
+  intros H. destruct (Nat.eq_dec i p) as [->|Hne]; [|rewrite nth_upd_neq by exact Hne; exact H].
+  destruct (Nat.lt_ge_cases p (length d)) as [Hlt|Hge]; [apply nth_upd_eq; exact Hlt|].
+  rewrite upd_oob by exact Hge. exact H.
+Qed.
+Lemma scatter_zeros_zat ix : forall (d : list K) n p, nth p d k0 = k0 -> nth p (scatter d ix (repeat k0 n)) k0 = k0.
+Proof.
+  induction ix as [|i ix IH]; intros d [|n] p H; cbn; auto. apply IH. apply nth_upd_zero; exact H.
+Qed.
+Lemma scatter_zeros_cov ix : forall (d : list K) n p, In p ix -> (length ix <= n)%nat ->
+  nth p (scatter d ix (repeat k0 n)) k0 = k0.
+Proof.
+  induction ix as [|i ix IH]; intros d n p Hin Hn; [destruct Hin|].
+  destruct n as [|n]; cbn in Hn; [lia|]. cbn.
+  destruct (Nat.eq_dec i p) as [->|Hne].
+  - apply scatter_zeros_zat. destruct (Nat.lt_ge_cases p (length d)) as [Hlt|Hge]; [apply nth_upd_eq; exact Hlt|].
+    rewrite upd_oob by exact Hge. apply nth_overflow; exact Hge.
+  - destruct Hin as [->|Hin]; [congruence|]. apply IH; [exact Hin|lia].
+Qed.
+Lemma nth_map_zero {A} (l : list A) p : nth p (map (fun _ => k0) l) k0 = k0.
+Proof. revert p; induction l as [|x l IH]; intros [|p]; cbn; auto. Qed.
+
+Lemma st_in_range (s : store) i v : st (getsig s i) = Some v -> (i < length s)%nat.
+Proof.
+  intros H. destruct (Nat.lt_ge_cases i (length s)) as [Hlt|Hge]; [exact Hlt|].
+  rewrite getsig_oob in H by exact Hge. discriminate.
+Qed.
+
+(* a reset never makes a zero entry non-zero, and zeroes every entry its reference addresses *)
+Lemma reset_sig_zat_pres r s j p : zat (se (getsig s j)) p -> zat (se (getsig (reset_sig r s) j)) p.
+Proof.
+  intros Hc. unfold reset_sig.
+  destruct (Nat.eq_dec (s_root r) j) as [Heq|Hne].
+  2:{ destruct (s_slice r) as [[ix shp]|]; destruct (se (getsig s (s_root r))); try exact Hc;
+      try (destruct (keep (getsig s (s_root r)))); rewrite put_se_other by exact Hne; exact Hc. }
+  subst j. destruct (se (getsig s (s_root r))) as [c|] eqn:E.
+  2:{ destruct (s_slice r) as [[ix shp]|]; rewrite E; exact I. }
+  pose proof (se_in_range _ _ _ E) as Hlt.
+  destruct (s_slice r) as [[ix shp]|].
+  - rewrite put_se_same by exact Hlt. cbn. cbn in Hc. apply scatter_zeros_zat. exact Hc.
+  - destruct (keep (getsig s (s_root r))); rewrite put_se_same by exact Hlt; [cbn; apply nth_map_zero|exact I].
+Qed.
+Lemma reset_sig_zat_cov r s j p : cov1b r j p = true -> zat (se (getsig (reset_sig r s) j)) p.
+Proof.
+  unfold cov1b. intros H. apply andb_true_iff in H as [H1 H2]. apply Nat.eqb_eq in H1. subst j.
+  unfold reset_sig. destruct (se (getsig s (s_root r))) as [c|] eqn:E.
+  2:{ destruct (s_slice r) as [[ix shp]|]; rewrite E; exact I. }
+  pose proof (se_in_range _ _ _ E) as Hlt.
+  destruct (s_slice r) as [[ix shp]|].
+  - rewrite put_se_same by exact Hlt. cbn. apply scatter_zeros_cov; [apply existsb_eqb_in; exact H2|lia].
+  - destruct (keep (getsig s (s_root r))); rewrite put_se_same by exact Hlt; [cbn; apply nth_map_zero|exact I].
+Qed.
+
+(* writing through a reference leaves every entry it does not address as it was *)
+Lemma add_sens_zat r d s j p : cov1b r j p = false -> zat (se (getsig s j)) p -> zat (se (getsig (add_sens r d s) j)) p.
+Proof.
+  intros Hcov Hz. unfold add_sens. destruct d as [d|]; [|exact Hz].
+  destruct (Nat.eq_dec (s_root r) j) as [Heq|Hne].
+  2:{ destruct (s_slice r) as [[ix shp]|];
+        [destruct (base_sens_or_zero (getsig s (s_root r)))|destruct (se (getsig s (s_root r)))];
+        try rewrite put_se_other by exact Hne; exact Hz. }
+  subst j. unfold cov1b in Hcov. rewrite Nat.eqb_refl in Hcov. cbn [andb] in Hcov.
+  destruct (s_slice r) as [[ix shp]|]; [|discriminate]. apply existsb_eqb_notin in Hcov.
+  unfold base_sens_or_zero. destruct (se (getsig s (s_root r))) as [b|] eqn:E.
+  - pose proof (se_in_range _ _ _ E) as Hlt. rewrite put_se_same by exact Hlt. cbn.
+    rewrite nth_scatter_notin by exact Hcov. exact Hz.
+  - destruct (st (getsig s (s_root r))) as [v|] eqn:Est; [|rewrite E; exact I].
+    pose proof (st_in_range _ _ _ Est) as Hlt. rewrite put_se_same by exact Hlt. cbn.
+    rewrite nth_scatter_notin by exact Hcov. apply nth_map_zero.
+Qed.
+Lemma set_sens_zat r x s j p : cov1b r j p = false -> zat (se (getsig s j)) p -> zat (se (getsig (set_sens r x s) j)) p.
+Proof.
+  intros Hcov Hz. unfold set_sens.
+  destruct (Nat.eq_dec (s_root r) j) as [Heq|Hne].
+  2:{ destruct (s_slice r) as [[ix shp]|]; [|rewrite put_se_other by exact Hne; exact Hz].
+      destruct (se (getsig s (s_root r))), x; try exact Hz;
+        destruct (base_sens_or_zero (getsig s (s_root r))); try exact Hz; rewrite put_se_other by exact Hne; exact Hz. }
+  subst j. unfold cov1b in Hcov. rewrite Nat.eqb_refl in Hcov. cbn [andb] in Hcov.
+  destruct (s_slice r) as [[ix shp]|]; [|discriminate]. apply existsb_eqb_notin in Hcov.
+  assert (P : forall xv, zat (se (getsig match base_sens_or_zero (getsig s (s_root r)) with
+                                         | Some b => put_se (s_root r) (Some (assign_into b ix xv)) s
+                                         | None => s end (s_root r))) p).
+  { intros xv. unfold base_sens_or_zero. destruct (se (getsig s (s_root r))) as [b|] eqn:E.
+    - pose proof (se_in_range _ _ _ E) as Hlt. rewrite put_se_same by exact Hlt. cbn.
+      rewrite nth_scatter_notin by exact Hcov. exact Hz.
+    - destruct (st (getsig s (s_root r))) as [v|] eqn:Est; [|rewrite E; exact I].
+      pose proof (st_in_range _ _ _ Est) as Hlt. rewrite put_se_same by exact Hlt. cbn.
+      rewrite nth_scatter_notin by exact Hcov. apply nth_map_zero. }
+  destruct (se (getsig s (s_root r))) as [b|] eqn:E; destruct x as [xv|]; try apply P. rewrite E. exact I.
+Qed.
+
+Lemma add_all_zat rs j p : forall ds s, covb rs j p = false -> zat (se (getsig s j)) p ->
+  zat (se (getsig (add_all rs ds s) j)) p.
+Proof.
+  induction rs as [|r rs IH]; intros [|d ds] s Hc Hz; cbn [add_all]; try exact Hz.
+  cbn in Hc. apply orb_false_iff in Hc as [Hc1 Hc2]. apply IH; [exact Hc2|]. apply add_sens_zat; assumption.
+Qed.
+Lemma m_sensitivity_zat m s j p : covb (m_in m) j p = false -> zat (se (getsig s j)) p ->
+  zat (se (getsig (m_sensitivity m s) j)) p.
+Proof. intros Hc Hz. unfold m_sensitivity. destruct (_ && _); [exact Hz|]. apply add_all_zat; assumption. Qed.
+Lemma n_sensitivity_zat n j p : (forall m, In m n -> covb (m_in m) j p = false) -> forall s,
+  zat (se (getsig s j)) p -> zat (se (getsig (n_sensitivity n s) j)) p.
+Proof.
+  intros H. unfold n_sensitivity.
+  assert (H' : forall m, In m (rev n) -> covb (m_in m) j p = false) by (intros m Hm; apply H; apply in_rev; exact Hm).
+  clear H. induction (rev n) as [|m l IH]; intros s Hz; cbn [fold_left]; [exact Hz|].
+  apply IH; [intros m' Hm'; apply H'; right; exact Hm'|]. apply m_sensitivity_zat; [apply H'; left; reflexivity|exact Hz].
+Qed.
+
+Lemma resets_zat_pres L j p : forall s, zat (se (getsig s j)) p -> zat (se (getsig (resets L s) j)) p.
+Proof.
+  unfold resets. induction L as [|r L IH]; intros s H; cbn; [exact H|]. apply IH. apply reset_sig_zat_pres; exact H.
+Qed.
+Lemma resets_zat_cov L j p : forall s, covb L j p = true -> zat (se (getsig (resets L s) j)) p.
+Proof.
+  induction L as [|r L IH]; intros s H; [discriminate|]. cbn in H. apply orb_true_iff in H as [H|H].
+  - change (resets (r :: L) s) with (resets L (reset_sig r s)). apply resets_zat_pres. apply reset_sig_zat_cov; exact H.
+  - change (resets (r :: L) s) with (resets L (reset_sig r s)). apply IH; exact H.
+Qed.
+
+Lemma covb_reset_refs_false n j p : covb (reset_refs n) j p = false -> forall m, In m n -> covb (m_in m) j p = false.
+Proof.
+  intros H m Hm. apply covb_false_of. intros r Hr. apply (covb_false_in _ _ _ H).
+  unfold reset_refs. apply in_flat_map. exists m. split; [apply in_rev in Hm; exact Hm|]. apply in_or_app. right. exact Hr.
+Qed.
+
+(* one iteration of the analytical pass: seed the output, backpropagate, blk.reset(), Sout.reset().
+   An entry that was zero (or a sensitivity that was None) before is zero (None) afterwards — for EVERY signal *)
+Lemma iteration_zat blk so df s j p : zat (se (getsig s j)) p ->
+  zat (se (getsig (reset_sig so (n_reset blk (n_sensitivity blk (set_sens so (Some df) s)))) j)) p.
+Proof.
+  intros Hz. rewrite n_reset_resets.
+  set (X := n_sensitivity blk (set_sens so (Some df) s)).
+  replace (reset_sig so (resets (reset_refs blk) X)) with (resets (reset_refs blk ++ [so]) X)
+    by (unfold resets; rewrite fold_left_app; reflexivity).
+  destruct (covb (reset_refs blk ++ [so]) j p) eqn:E; [apply resets_zat_cov; exact E|].
+  apply resets_zat_pres. rewrite covb_app in E. apply orb_false_iff in E as [E1 E2].
+  cbn in E2. rewrite orb_false_r in E2.
+  unfold X. apply n_sensitivity_zat; [apply covb_reset_refs_false; exact E1|]. apply set_sens_zat; assumption.
+Qed.
+
+Lemma analytical_zat_pres c blk inps j p : forall outps iout rand s,
+  zat (se (getsig s j)) p -> zat (se (getsig (a_store (analytical c blk inps outps iout rand s)) j)) p.
+Proof.
+  induction outps as [|so outps IH]; intros iout rand s Hz; cbn [analytical]; [exact Hz|].
+  destruct (get_state so s) as [output|]; [|cbn [a_store]; apply IH; exact Hz].
+  destruct (make_seed c iout output rand) as [df rand']. cbn [a_store]. apply IH. apply iteration_zat; exact Hz.
+Qed.
+
+(* the analytical pass creates no sensitivity anywhere *)
+Lemma analytical_clean_pres c blk inps j outps iout rand s :
+  clean (se (getsig s j)) -> clean (se (getsig (a_store (analytical c blk inps outps iout rand s)) j)).
+Proof. rewrite !clean_zat. intros H p. apply analytical_zat_pres. apply H. Qed.
 
 (* ------------------------------------------------------------------ sub-network selection *)
 Definition mod0 : module := {| m_in := []; m_out := []; m_f := fun _ => []; m_vjp := fun _ _ => [] |}.
@@ -627,20 +829,6 @@ Proof.
   inversion H; subst. reflexivity.
 Qed.
 
-(* no sensitivity is left set: every Signal of the sub-network holds None or zeros after the call *)
-Theorem fd_leaves_clean c blk inps outps s res j :
-  finite_difference c false blk inps outps s = inr res -> direct_sig blk j ->
-  clean (se (getsig (f_store res) j)).
-Proof.
-  intros H Hd. rewrite (fd_result _ _ _ _ _ _ H). cbn [f_store].
-  set (s1 := n_response blk (n_reset blk s)). set (a := analytical c blk inps outps 0 (c_rand c) s1).
-  destruct (perturb_inputs_sens_same c blk outps (a_f0 a) (a_df a) (a_dx a) inps 0%nat (a_store a)) as [_ F].
-  destruct (F j) as [F1 _]. rewrite F1.
-  unfold a. apply analytical_clean; [exact Hd|].
-  unfold s1. destruct (n_response_sens_same blk (n_reset blk s)) as [_ G]. destruct (G j) as [G1 _]. rewrite G1.
-  apply n_reset_clean; exact Hd.
-Qed.
-
 (* the states: every root the sub-network does not write is restored to what it held after the initial response,
    which for such a root is what it held before the call *)
 Lemma set_sens_st r x s j : st (getsig (set_sens r x s) j) = st (getsig s j).
@@ -710,7 +898,81 @@ Proof.
   destruct (get_state so s) as [output|]; [|cbn [a_store]; apply IH].
   destruct (make_seed c iout output rand) as [df rand']. cbn [a_store].
   eapply st_same_trans; [|apply IH].
-  eapply st_same_trans; [apply set_sens_st_same|]. eapply st_same_trans; [apply n_sensitivity_st_same|apply n_reset_st_same].
+  eapply st_same_trans; [apply set_sens_st_same|]. eapply st_same_trans; [apply n_sensitivity_st_same|].
+  eapply st_same_trans; [apply n_reset_st_same|apply reset_sig_st_same].
+Qed.
+
+(* an output of interest that has a value is clean after its own iteration (Sout.reset()) and stays clean *)
+Lemma analytical_out_clean c blk inps so0 : s_slice so0 = None -> forall outps iout rand s,
+  In so0 outps -> st (getsig s (s_root so0)) <> None ->
+  clean (se (getsig (a_store (analytical c blk inps outps iout rand s)) (s_root so0))).
+Proof.
+  intros Hsl. induction outps as [|so outps IH]; intros iout rand s Hin Hst; [destruct Hin|].
+  cbn [analytical]. destruct (get_state so s) as [output|] eqn:Eg.
+  - destruct (make_seed c iout output rand) as [df rand']. cbn [a_store].
+    set (s3 := reset_sig so (n_reset blk (n_sensitivity blk (set_sens so (Some df) s)))).
+    destruct Hin as [->|Hin].
+    + apply analytical_clean_pres. unfold s3. apply reset_sig_clean_root; exact Hsl.
+    + apply IH; [exact Hin|].
+      assert (Hs : st_same s s3).
+      { unfold s3. eapply st_same_trans; [apply set_sens_st_same|]. eapply st_same_trans; [apply n_sensitivity_st_same|].
+        eapply st_same_trans; [apply n_reset_st_same|apply reset_sig_st_same]. }
+      destruct Hs as [_ Hs]. rewrite Hs. exact Hst.
+  - cbn [a_store]. destruct Hin as [->|Hin]; [|apply IH; assumption].
+    exfalso. apply Hst. unfold get_state in Eg. rewrite Hsl in Eg.
+    destruct (st (getsig s (s_root so0))); [discriminate|reflexivity].
+Qed.
+
+(* no sensitivity is left set: every Signal of the sub-network AND every output of interest that has a value (also
+   one that is not a signal of any executed module) holds None or zeros after the call *)
+Definition out_sig (blk : net) (outps : list sref) (s : store) (j : nat) : Prop :=
+  exists so, In so outps /\ s_root so = j /\ s_slice so = None /\
+             st (getsig (n_response blk (n_reset blk s)) j) <> None.
+
+Theorem fd_leaves_clean c blk inps outps s res j :
+  finite_difference c false blk inps outps s = inr res -> direct_sig blk j \/ out_sig blk outps s j ->
+  clean (se (getsig (f_store res) j)).
+Proof.
+  intros H Hd. rewrite (fd_result _ _ _ _ _ _ H). cbn [f_store].
+  set (s1 := n_response blk (n_reset blk s)). set (a := analytical c blk inps outps 0 (c_rand c) s1).
+  destruct (perturb_inputs_sens_same c blk outps (a_f0 a) (a_df a) (a_dx a) inps 0%nat (a_store a)) as [_ F].
+  destruct (F j) as [F1 _]. rewrite F1.
+  destruct Hd as [Hd|(so & Hin & <- & Hsl & Hst)].
+  - unfold a. apply analytical_clean; [exact Hd|].
+    unfold s1. destruct (n_response_sens_same blk (n_reset blk s)) as [_ G]. destruct (G j) as [G1 _]. rewrite G1.
+    apply n_reset_clean; exact Hd.
+  - unfold a. apply analytical_out_clean; assumption.
+Qed.
+
+(* ... and none is created: a Signal (ANY Signal: of the sub-network, upstream, downstream, unrelated) that was clean
+   before the call is clean after it *)
+Theorem fd_keeps_clean c blk inps outps s res j :
+  finite_difference c false blk inps outps s = inr res -> clean (se (getsig s j)) ->
+  clean (se (getsig (f_store res) j)).
+Proof.
+  intros H Hc. rewrite (fd_result _ _ _ _ _ _ H). cbn [f_store].
+  set (s1 := n_response blk (n_reset blk s)). set (a := analytical c blk inps outps 0 (c_rand c) s1).
+  destruct (perturb_inputs_sens_same c blk outps (a_f0 a) (a_df a) (a_dx a) inps 0%nat (a_store a)) as [_ F].
+  destruct (F j) as [F1 _]. rewrite F1.
+  unfold a. apply analytical_clean_pres.
+  unfold s1. destruct (n_response_sens_same blk (n_reset blk s)) as [_ G]. destruct (G j) as [G1 _]. rewrite G1.
+  apply n_reset_clean_pres; exact Hc.
+Qed.
+
+(* the same for a Network: the modules before the first user of an input are only evaluated *)
+Theorem fd_network_leaves_clean c mods inps outps s res i1 i2 j :
+  find_first inps mods 0 = Some i1 -> find_last outps mods 0 None = Some i2 ->
+  finite_difference c true mods inps outps s = inr res ->
+  let blk := firstn (S i2 - i1) (skipn i1 mods) in
+  direct_sig blk j \/ out_sig blk outps (n_response (firstn i1 mods) s) j \/ clean (se (getsig s j)) ->
+  clean (se (getsig (f_store res) j)).
+Proof.
+  intros H1 H2 H blk Hd. rewrite (fd_network_selection c mods inps outps s i1 i2 H1 H2) in H. fold blk in H.
+  destruct Hd as [Hd|[Hd|Hc]].
+  - apply (fd_leaves_clean _ _ _ _ _ _ _ H). left; exact Hd.
+  - apply (fd_leaves_clean _ _ _ _ _ _ _ H). right; exact Hd.
+  - apply (fd_keeps_clean _ _ _ _ _ _ _ H).
+    destruct (n_response_sens_same (firstn i1 mods) s) as [_ G]. destruct (G j) as [G1 _]. rewrite G1. exact Hc.
 Qed.
 
 (* after the call every input state (every root the sub-network does not write) equals its initial value exactly *)
@@ -729,21 +991,33 @@ Proof.
   - rewrite La, L1. exact Hlt.
 Qed.
 
-(* the seed handed to the module and used for the numerical value: what the configuration prescribes, unless the
-   output keeps its allocation and the seed object is zeroed by reset (quirk) *)
+(* one iteration of the analytical pass, completely: the recorded value, the recorded input sensitivities (obtained by
+   backpropagating the seed), the recorded seed — which IS the seed that was backpropagated — and the rest of the pass,
+   which starts from the store after blk.reset(); Sout.reset() with the remaining random stream *)
 Lemma analytical_head c blk inps so outps iout rand s output :
   get_state so s = Some output ->
   let df := fst (make_seed c iout output rand) in
   let s2 := n_sensitivity blk (set_sens so (Some df) s) in
-  hd None (a_f0 (analytical c blk inps (so :: outps) iout rand s)) = Some output /\
-  hd [] (a_dx (analytical c blk inps (so :: outps) iout rand s)) = map (fun si => get_sens si s2) inps /\
-  (q_seed_alias c = false \/ keep (getsig s2 (s_root so)) = false ->
-   hd None (a_df (analytical c blk inps (so :: outps) iout rand s)) = Some df).
+  let a := analytical c blk inps (so :: outps) iout rand s in
+  let a' := analytical c blk inps outps (S iout) (snd (make_seed c iout output rand)) (reset_sig so (n_reset blk s2)) in
+  (hd None (a_f0 a) = Some output /\
+   hd [] (a_dx a) = map (fun si => get_sens si s2) inps /\
+   hd None (a_df a) = Some df) /\
+  a_f0 a = Some output :: a_f0 a' /\ a_dx a = map (fun si => get_sens si s2) inps :: a_dx a' /\
+  a_df a = Some df :: a_df a' /\ a_store a = a_store a'.
 Proof.
-  intros Hg. cbn [analytical]. rewrite Hg. destruct (make_seed c iout output rand) as [df rand'] eqn:E. cbn [fst].
-  cbn [a_f0 a_dx a_df hd]. split; [reflexivity|split; [reflexivity|]].
-  intros [Hq|Hk]; [rewrite Hq|rewrite Hk, andb_false_r]; reflexivity.
+  intros Hg. cbn zeta. cbn [analytical]. rewrite Hg. destruct (make_seed c iout output rand) as [df rand'] eqn:E.
+  cbn [fst snd a_f0 a_dx a_df a_store hd]. repeat split; reflexivity.
 Qed.
+
+(* an output whose state is None is skipped: nothing is recorded for it and no sensitivity is touched *)
+Lemma analytical_skip c blk inps so outps iout rand s :
+  get_state so s = None ->
+  let a := analytical c blk inps (so :: outps) iout rand s in
+  let a' := analytical c blk inps outps (S iout) rand s in
+  a_f0 a = None :: a_f0 a' /\ a_dx a = map (fun _ => None) inps :: a_dx a' /\ a_df a = None :: a_df a' /\
+  a_store a = a_store a'.
+Proof. intros Hg. cbn zeta. cbn [analytical]. rewrite Hg. cbn [a_f0 a_dx a_df a_store]. repeat split; reflexivity. Qed.
 
 (* a root that is not an output of any module of the sub-network is not written by its response *)
 Lemma set_states_other rs : forall vs s j, Forall (fun r => s_root r <> j) rs ->
